@@ -12,7 +12,7 @@
 //!   enc zstd / dec zstd likewise
 //! Encoder error classes: type-mismatch unsupported invalid-value invalid-id io.
 //! Decoder error classes: eof utf8 bad-header file-version chunk-version type-mismatch invalid-data
-//!   type-id rotation ocf-format content-type io.
+//!   type-id rotation ocf-format content-type unknown-referent chunk-reserved io.
 //! Hints (parameters of the model observed on the implementation): `order <label> <prop names>` = the
 //! iteration order of Instance.properties; `aset <k> <insertion seq> <iteration seq>` = iteration order
 //! of a UstrSet built by that insertion sequence; `quant <f32> <u8>` = one channel of
@@ -62,7 +62,11 @@ pub fn dec_err_class(msg: &str) -> &'static str {
         "ocf-format"
     } else if msg.starts_with("'Content' type") {
         "content-type"
-    } else if msg.contains("failed to fill whole buffer") {
+    } else if msg.starts_with("PRNT chunk refers to referent") {
+        "unknown-referent"
+    } else if msg.contains("Chunk reserved space was not zero") {
+        "chunk-reserved"
+    } else if msg.contains("failed to fill whole buffer") || msg.starts_with("chunk payload is") {
         "eof"
     } else if msg.contains("stream did not contain valid UTF-8") {
         "utf8"
